@@ -4,6 +4,7 @@ import (
 	"errors"
 	"fmt"
 	"math"
+	"regexp"
 	"strconv"
 	"strings"
 
@@ -25,6 +26,11 @@ var (
 	// AmountZero is a convenience variable for testing against zero amounts.
 	AmountZero = MakeAmount(0, 0)
 )
+
+// amountPattern is the text format of an amount, as published in the JSON Schema.
+const amountPattern = `^\-?[0-9]+(\.[0-9]+)?$`
+
+var amountRegexp = regexp.MustCompile(amountPattern)
 
 // NewAmount provides a pointer to an Amount instance. Normally we'd recommend
 // using the `MakeAmount` method.
@@ -86,6 +92,11 @@ func AmountFromString(val string) (Amount, error) {
 		e = uint32(len(x[1]))
 		v = v * intPow(10, e)
 		v += v2
+	}
+
+	// strconv accepts signs in both parts: only the published format is valid
+	if !amountRegexp.MatchString(val) {
+		return a, fmt.Errorf("invalid amount '%v'", val)
 	}
 
 	// Prepare the result
@@ -390,7 +401,7 @@ func intPow(base int, exp uint32) int64 { // nolint:unparam
 func (Amount) JSONSchema() *jsonschema.Schema {
 	return &jsonschema.Schema{
 		Type:        "string",
-		Pattern:     `^\-?[0-9]+(\.[0-9]+)?$`,
+		Pattern:     amountPattern,
 		Title:       "Amount",
 		Description: "Quantity with optional decimal places that determine accuracy.",
 	}
